@@ -312,7 +312,11 @@ def check_scenario(ctx, case):
             bound = 3 * ms['slowinterval'] + 2 * max(npolled, 1) * S + EPS
             gaps = [b - a for a, b in zip(ts, ts[1:])] + ([horizon - ts[-1]] if ts else [])
             if not ts:
-                ctx.finding('slow-poll:never-read', case, f'{name}.{fname}')
+                # (after a communication failure at start-up the first reads are skipped: the first sweep has the same bound)
+                if horizon - case['t0'] > bound:
+                    ctx.finding('slow-poll:never-read', case, f'{name}.{fname}')
+                else:
+                    ctx.label('slow-poll:horizon-shorter-than-bound')
             elif max(gaps) > bound:
                 ctx.finding('slow-poll:refresh-bound-exceeded', case, f'{name}.{fname}: gap {max(gaps):.3f} > 3*{ms["slowinterval"]} + 2*{npolled}*{S:.3f}')
             else:
